@@ -13,7 +13,7 @@ use neurons::tensor::Tensor;
 pub fn meta(ctx: &Ctx) -> Meta {
     let e = max_epochs(ctx);
     Meta {
-        rule: format!("every validation-loss trajectory in {{rise,fall,equal}}^(E-1) for epoch budgets E in 1..{} x every tolerance T in 1..5, plus tolerances 6..12, 16, 20 with budgets T+1, T+2, T+4 on all trajectories with at most two non-rise events, with validation data (also with print frequencies 1, 2 and beyond the budget on a third of them, a quarter each after an earlier learn() call on the same network without / with validation data (which leaves the weights untouched), a third of them at a tiny scale: loss 2^-20 moving in steps of 2^-27, and a third at a large offset: loss 2^20 moving by one unit in the last place per epoch); strictly rising trajectories under epoch budgets of 1000, 65536, i32::MAX-1 and i32::MAX (must stop at epoch T+1; watchdog of 60 s); every E in 1..{} without; the unmodified learn() is driven through each of them and the commanded pattern is re-derived from the returned vector (only matching runs count). Oracle over what learn() returned: len(train)=n; len(val_loss)=len(val_acc)=n (0 and n=E without validation data); stop(e) := e>T and the last T recorded losses strictly increasing is false for every e<n; if n<E then stop(n). States = (epoch, pattern prefix) pairs visited; transitions = epochs run; non-trivial = trajectories with at least one rise", e, e),
+        rule: format!("every validation-loss trajectory in {{rise,fall,equal}}^(E-1) for epoch budgets E in 1..{} x every tolerance T in 1..5, plus tolerances 6..12, 16, 20 with budgets T+1, T+2, T+4 on all trajectories with at most two non-rise events, with validation data (also with print frequencies 1, 2 and beyond the budget on a third of them, a quarter each after an earlier learn() call on the same network without / with validation data (which leaves the weights untouched), a third of them at a tiny scale: loss 2^-20 moving in steps of 2^-27, a third at a large offset: loss 2^20 moving by one unit in the last place per epoch, and every trajectory without a fall also starting at a loss of exactly 0); strictly rising trajectories under epoch budgets of 1000, 65536, i32::MAX-1 and i32::MAX (must stop at epoch T+1; watchdog of 60 s); every E in 1..{} without; the unmodified learn() is driven through each of them and the commanded pattern is re-derived from the returned vector (only matching runs count). Oracle over what learn() returned: len(train)=n; len(val_loss)=len(val_acc)=n (0 and n=E without validation data); stop(e) := e>T and the last T recorded losses strictly increasing is false for every e<n; if n<E then stop(n). States = (epoch, pattern prefix) pairs visited; transitions = epochs run; non-trivial = trajectories with at least one rise", e, e),
         bound: format!("E <= {}, T <= 5; complete", e),
         exhaustive: true,
         assumptions: vec!["stop rule read as in the statement's anchor: the window of the last T recorded validation losses is strictly increasing (T-1 comparisons) and more than T epochs have run".into()],
@@ -26,6 +26,11 @@ fn max_epochs(ctx: &Ctx) -> usize {
     } else {
         6
     }
+}
+
+thread_local! {
+    /// first validation loss of a probe run (scale "zero" needs the prediction after the first epoch)
+    static PROBE: std::cell::Cell<Option<f32>> = const { std::cell::Cell::new(None) };
 }
 
 /// pattern char per step e -> e+1 (e = 1..E-1): 'r' rise, 'f' fall, 'e' equal
@@ -71,7 +76,28 @@ pub fn check(case: &Kv, rep: &mut Report) {
     let xv = tensor(Dims::Flat(k), &a.iter().map(|v| *v as f32).collect::<Vec<_>>());
     // "offset": a loss of 2^20 moving by 1/8 per epoch - one unit in the last place, a relative change of 1.2e-7
     let offset = case.opt("scale") == Some("offset");
-    let tv = Tensor::single(vec![if tiny { 9.536_743e-7 } else if offset { 1_048_576.0 } else { 1000.0 }]);
+    // "zero": the validation target is the prediction after the first epoch, so the first recorded loss is EXACTLY 0 and
+    // the trajectory rises (or stays) from there - only for patterns without a fall (the loss is an absolute value)
+    let zero = case.opt("scale") == Some("zero");
+    let mut target_value = if tiny { 9.536_743e-7 } else if offset { 1_048_576.0 } else { 1000.0 };
+    if zero {
+        let mut probe = Kv::new();
+        for key in ["epochs", "tol", "val", "pattern"] {
+            probe.set(key, case.get(key));
+        }
+        probe.set("probe", 1);
+        PROBE.with(|p| p.set(None));
+        check(&probe, &mut Report::new());
+        match PROBE.with(|p| p.get()) {
+            Some(first) => target_value = 1000.0 - first,
+            None => {
+                rep.count("steering_mismatch", 1);
+                rep.violate("C13 steering failed (machinery)", "the probe run did not report a first validation loss".to_string(), case);
+                return;
+            }
+        }
+    }
+    let tv = Tensor::single(vec![target_value]);
     let xr: Vec<&Tensor> = xs.iter().collect();
     let tr: Vec<&Tensor> = ts.iter().collect();
     let vx = vec![&xv];
@@ -183,6 +209,15 @@ pub fn check(case: &Kv, rep: &mut Report) {
         );
         return;
     }
+    if case.opt("probe").is_some() {
+        PROBE.with(|p| p.set(val.first().copied()));
+        return;
+    }
+    if zero && val.first() != Some(&0.0) {
+        rep.count("steering_mismatch", 1);
+        rep.violate("C13 steering failed (machinery)", format!("the first validation loss should be exactly 0, validation losses {:?}", val), case);
+        return;
+    }
     // the realised pattern must be the commanded one (otherwise the steering failed: machinery, not verdict)
     for e in 1..n {
         let realised = if val[e] > val[e - 1] {
@@ -247,6 +282,10 @@ pub fn cases(ctx: &Ctx) -> Vec<Kv> {
                 }
                 if (code + tol) % 3 == 2 {
                     out.push(Kv::new().put("epochs", epochs).put("tol", tol).put("val", 1).put("pattern", &pat).put("scale", "offset"));
+                }
+                // trajectories that start at a loss of exactly 0 (no fall possible from there)
+                if !pat.contains('f') {
+                    out.push(Kv::new().put("epochs", epochs).put("tol", tol).put("val", 1).put("pattern", &pat).put("scale", "zero"));
                 }
                 // the same network has been through an earlier learn() call (without / with validation data)
                 if (code + tol) % 4 == 0 {
